@@ -303,6 +303,8 @@ func (e *Engine) globalModel(st *State, g *ssa.Global) (Value, bool) {
 	switch name {
 	case "encoding/base64.StdEncoding", "encoding/base64.URLEncoding", "encoding/base64.RawURLEncoding", "encoding/base64.RawStdEncoding":
 		return Ptr{obj: st.newObj(OpaqueV{kind: "b64enc", data: name})}, true
+	case "encoding/binary.LittleEndian", "encoding/binary.BigEndian":
+		return zero(g.Type().(*types.Pointer).Elem()), true
 	case "crypto/rand.Reader":
 		return IfaceV{t: e.namedType("io", "Reader"), v: OpaqueV{kind: "cryptoreader"}}, true
 	case "io.EOF", "github.com/redis/go-redis/v9.Nil", "net/http.ErrUseLastResponse":
